@@ -49,6 +49,10 @@ class Hexital:
         if candlestick_type:
             self.candlestick_type = validate_candlesticktype(candlestick_type)
 
+        # Indicators with a timeframe of their own start from the candles as they were given,
+        # not from what the default manager makes of them (collapsed, gap-filled, trimmed)
+        given = deepcopy(candles) if indicators and isinstance(candles, list) else None
+
         self._candles = {
             DEFAULT_CANDLES: CandleManager(
                 candles if isinstance(candles, list) else [],
@@ -59,9 +63,11 @@ class Hexital:
             )
         }
 
-        self._indicators = self._validate_indicators(indicators) if indicators else {}
+        self._indicators = self._validate_indicators(indicators, given) if indicators else {}
 
-    def _validate_indicators(self, indicators: List[dict | Indicator]) -> Dict[str, Indicator]:
+    def _validate_indicators(
+        self, indicators: List[dict | Indicator], given: Optional[List[Candle]] = None
+    ) -> Dict[str, Indicator]:
         if not indicators:
             return {}
 
@@ -87,7 +93,7 @@ class Hexital:
                 indicator.candle_manager = self._candles[indicator.timeframe]
             else:
                 manager = CandleManager(
-                    self._raw_default_candles(),
+                    self._raw_default_candles(given),
                     candles_lifespan=self.candles_lifespan,
                     timeframe=indicator.timeframe if indicator.timeframe else self.timeframe,
                     timeframe_fill=self.timeframe_fill,
@@ -98,10 +104,11 @@ class Hexital:
 
         return valid_indicators
 
-    def _raw_default_candles(self) -> List[Candle]:
-        """Copies of the default candles as a new timeframe has to see them: raw values,
+    def _raw_default_candles(self, given: Optional[List[Candle]] = None) -> List[Candle]:
+        """Copies of the candles a new timeframe starts from (the ones given at construction,
+        later the default candles) as it has to see them: raw values,
         no candlestick conversion and no readings of the default timeframe"""
-        candles = deepcopy(self._candles[DEFAULT_CANDLES].candles)
+        candles = deepcopy(given if given is not None else self._candles[DEFAULT_CANDLES].candles)
         for candle in candles:
             candle.recover_clean_values()
             candle.clean_values = {}
